@@ -9,9 +9,16 @@ unsigned long long wv_hl_watch;   /* the call whose block is observed */
 unsigned wv_g;                    /* observed byte index inside a 64-byte block */
 unsigned wv_gw;                   /* observed word index inside a message schedule */
 unsigned char wv_hl_wbyte;        /* byte wv_g of the block given to call wv_hl_watch */
+const unsigned char *wv_hl_wptr;   /* pointer given to call wv_hl_watch */
+const unsigned char *wv_hl_fptr;   /* arguments of the last final-block call: tail pointer, tail length, bit count before */
+unsigned wv_hl_fr;
+unsigned long long wv_hl_ftotal;
 unsigned wv_rounds;               /* rounds executed by the current compression call */
 spec_u32 wv_snap_h[8], wv_snap_t[8];
-#define WV_HLOG_BLOCK(p) { if (wv_hl_n == wv_hl_watch) wv_hl_wbyte = (p)[wv_g]; wv_hl_n++; }
+#define WV_ARR(a) __CPROVER_object_upto(a, sizeof(a))
+#define WV_HGHOSTS wv_hl_n, wv_hl_wbyte, wv_hl_wptr, wv_hl_fptr, wv_hl_fr, wv_hl_ftotal, wv_rounds, WV_ARR(wv_snap_h), WV_ARR(wv_snap_t)
+#define WV_HLOG_BLOCK(p) { if (wv_hl_n == wv_hl_watch) { wv_hl_wbyte = (p)[wv_g]; wv_hl_wptr = (p); } wv_hl_n++; }
+#define WV_HLOG_FINAL(p, r, total) { wv_hl_fptr = (p); wv_hl_fr = (r); wv_hl_ftotal = (total); }
 #define WV_MD5_EQ(m, a, b, c, d) ((m).v[0] == (a) && (m).v[1] == (b) && (m).v[2] == (c) && (m).v[3] == (d))
 #define WV_SNAP_H(a, n) { for (int wv_k = 0; wv_k < (n); ++wv_k) wv_snap_h[wv_k] = (a)[wv_k]; }
 #define WV_SNAP_T(a, n) { for (int wv_k = 0; wv_k < (n); ++wv_k) wv_snap_t[wv_k] = (a)[wv_k]; }
